@@ -5,6 +5,8 @@
      fft    <N> (<re> <im>) x N
      ifft   <N> (<re> <im>) x N
      freq   <n> <d>
+     trace  <fs|sg> <nops> (F <kind> <p1> <p2> <p3> <fr> | S <c> | D <c> | R) x nops <N> <times x N> <values x N>
+            -> the values read after every op, concatenated (nops * N floats)
      fullgrid <lead> <trail> <N> <times x N>
      fsvalues <lead> <trail> <nf> (<kind> <p1> <p2> <p3> <fr>) x nf <N> <times x N> <L> <fvals x L>
    Output: one line of hex floats per case. *)
@@ -51,6 +53,22 @@ let () =
          let rec go i acc = if i = 0 then List.rev acc else (let a = nf () in let b = nf () in go (i - 1) ((a, b) :: acc)) in
          let xs = go n [] in
          out_c (if toks.(0) = "fft" then Filt.fft_l xs else Filt.ifft_l xs)
+       | "trace" ->
+         let which = toks.(!pos) in incr pos;
+         let k = ni () in
+         let rec ops i acc = if i = 0 then List.rev acc else begin
+             let tag = toks.(!pos) in incr pos;
+             let op = (match tag with
+               | "F" -> let kind = ni () in let p1 = nf () in let p2 = nf () in let p3 = nf () in let fr = ni () = 1 in
+                        Filt.OpFilter (resp kind p1 p2 p3, fr)
+               | "S" -> Filt.OpScale (nf ())
+               | "D" -> Filt.OpDiv (nf ())
+               | _ -> Filt.OpRead) in
+             ops (i - 1) (op :: acc) end in
+         let ol = ops k [] in
+         let n = ni () in let times = nlist n in let values = nlist n in
+         let tr = if which = "fs" then Filt.fs_trace times values Filt.fs_init ol else Filt.sg_trace times values ol in
+         out_r (List.concat tr)
        | "fullgrid" ->
          let lead = nf () in let trail = nf () in let n = ni () in let times = nlist n in
          out_r (Filt.full_times times lead trail (Filt.sig_dt times))
